@@ -327,6 +327,9 @@ def report_rejects(chk: Check, rejects: List[Reject], what: str,
                        'clause': r.clause, 'events': r.trace_events[-400:]})
 
 
+PMAP_TIMEOUT = int(os.environ.get('VERIF_PMAP_TIMEOUT', '5400'))
+
+
 def pmap(fn: Callable, items: Sequence, procs: int = NCPU, chunk: int = 1) -> List:
     """Process-parallel map (fork), order preserving."""
     import multiprocessing as mp
@@ -334,7 +337,11 @@ def pmap(fn: Callable, items: Sequence, procs: int = NCPU, chunk: int = 1) -> Li
         return [fn(x) for x in items]
     ctx = mp.get_context('fork')
     with ctx.Pool(min(procs, len(items))) as pool:
-        return pool.map(fn, items, chunksize=chunk)
+        try:
+            return pool.map_async(fn, items, chunksize=chunk).get(timeout=PMAP_TIMEOUT)
+        except mp.TimeoutError:
+            raise MachineryError(f'parallel map of {getattr(fn, "__name__", fn)} over {len(items)} '
+                                 f'items did not finish within {PMAP_TIMEOUT} s')
 
 
 def main_wrapper(fn: Callable[[], int]) -> None:
